@@ -14,7 +14,7 @@ Engine A over flat inputs.  Families:
   euclid-poly   extended_euclidean on all pairs of small polynomials (Z, Q and field-unit variants)
   fft           fft / ifft / sym_fft for every length on every unit vector + two dense vectors
   sortuniq      polynomial.__mul__'s like-term merge on every short raw term list
-  poly-pair     + - * divmod // % on every pair of small sparse polynomials (+ mappers on results)
+  poly-pair     + - * divmod // % and exact division / on every pair of small sparse polynomials (+ mappers on results)
   poly-unary    neg, **, scalars on both sides, *base, mappers, evaluator entry points
   poly-field    divmod with a rational unit (Fraction unit / exact field unit)
   quotient      primitives.quotient(p, q) through every evaluator entry point (+ big numerators)
@@ -310,6 +310,37 @@ def probe_divmod(dom, a, b, out=None):
     return []
 
 
+def probe_truediv(dom, a, b):
+    """Exact division P / Q (the operator): either a quotient q with q*Q == P as polynomials, or a
+    refusal (ValueError; ZeroDivisionError for the zero divisor).  A refusal is wrong when the
+    division is exact in Q[x] with an integral quotient."""
+    _tick()
+    pa, pb = mk(a, dom), mk(b, dom)
+    qa, qb = QPoly(a), QPoly(b)
+    try:
+        t = ref.run_with_call_budget(lambda: pa / pb, CALL_BUDGET)
+    except (ValueError, ZeroDivisionError) as e:
+        if isinstance(e, ZeroDivisionError) != qb.is_zero():
+            return [("raises:" + excname(e), repr(e))]
+        if not qb.is_zero():
+            qt, rt = qa.divmod_field(qb)
+            if rt.is_zero() and qt.all_integral():
+                return [("refuses-exact", f"P == ({qt})*Q exactly, but P / Q raised {e!r}")]
+        return []
+    except BudgetExceeded:
+        return [("diverges", f"P / Q made more than {CALL_BUDGET} calls")]
+    except Exception as e:  # noqa: BLE001
+        return [("raises:" + excname(e), repr(e))]
+    try:
+        gt = from_impl(t)
+    except NotExact as e:
+        return [("inexact", f"quotient not an exact polynomial: {e}")]
+    if gt * qb != qa:
+        return [("wrong", f"P / Q returned {gt}, but ({gt})*Q = {gt * qb} != P "
+                 f"(remainder {qa - gt * qb} dropped)")]
+    return _result_vs_ref(t, gt, "P/Q")
+
+
 def probe_neg(dom, a):
     _tick()
     try:
@@ -363,6 +394,15 @@ def probe_scalar(op, dom, a, s):
         except Exception as e:  # noqa: BLE001
             return [("raises:" + excname(e), repr(e))]
         return _result_vs_ref(res, qa * QPoly(((1, 1),)), "P*x")
+    if op == "truediv":
+        # P / s is computed as (1/s) * P: exact only for a rational scalar
+        if s == 0 or not isinstance(s, Fraction):
+            return []
+        try:
+            res = pa / s
+        except Exception as e:  # noqa: BLE001
+            return [("raises:" + excname(e), repr(e))]
+        return _result_vs_ref(res, qa.scale(1 / s), f"P / {s}")
     if op == "divmod":
         if s == 0:
             return []
@@ -967,6 +1007,7 @@ PROBES = {
     "arith": (probe_arith, ("fixed", "fixed", "poly", "poly")),
     "sortuniq": (probe_sortuniq, ("terms",)),
     "divmod": (probe_divmod, ("fixed", "poly", "poly")),
+    "truediv": (probe_truediv, ("fixed", "poly", "poly")),
     "neg": (probe_neg, ("fixed", "poly")),
     "pow": (probe_pow, ("fixed", "poly", "scalar")),
     "scalar": (probe_scalar, ("fixed", "fixed", "poly", "scalar")),
@@ -984,7 +1025,7 @@ PROBES = {
     "ratop": (probe_ratop, ("fixed", "fixed", "fixed", "fixed", "fixed")),
 }
 # label-only: which fixed arguments go into the signature
-LABEL_ARGS = {"euclid-poly": (0,), "field-divmod": (0,), "eval": (0,), "quot": (), "divmod": (0,),
+LABEL_ARGS = {"euclid-poly": (0,), "field-divmod": (0,), "eval": (0,), "quot": (), "divmod": (0,), "truediv": (0,),
               "fft": (0,), "ratop": (0,), "fft-history": (0,), "ipow-mutable": (0,)}
 
 
@@ -1105,7 +1146,7 @@ class C19(Check):
             "the full integer box and on every ordered pair of polynomials of degree <= 2 over "
             "{-1,0,1,2}; fft/ifft/sym_fft for EVERY length up to the bound on every unit vector "
             "(the transform is linear) and two dense vectors, both signs; the like-term merge on "
-            "every raw term list up to the length bound; + - * divmod // % on every ordered pair "
+            "every raw term list up to the length bound; + - * divmod // % and exact division / on every ordered pair "
             "of sparse polynomials up to the degree/coefficient bound (int and Fraction "
             "coefficients), unary minus, ** 0..3, scalars on both sides, four coefficient/base "
             "rewriting mappers and four evaluator entry points on every single polynomial and on "
@@ -1128,6 +1169,10 @@ class C19(Check):
         "the exact quotient in Q[x] has integral coefficients (default unit 1 = IntegerTraits: "
         "coefficients are divided with divmod, so division stops at the first inexact step) and "
         "always for a field unit with a monic divisor; divmod by the zero polynomial may raise",
+        "P / Q (exact division) may either return q with q*Q == P as polynomials or refuse with "
+        "ValueError (ZeroDivisionError for Q == 0); a refusal is a failure when the division is "
+        "exact with an integral quotient; P / scalar is computed as (1/scalar)*P and is therefore "
+        "only demanded for Fraction scalars (for an int scalar the coefficients become floats)",
         "Fraction is not a pymbolic constant class (IdentityMapper rejects it and the checks never "
         "register constant classes), so mappers are applied to integer-coefficient polynomials only",
         "polynomial Euclid is demanded on every pair; pairs whose remainder sequence leaves the "
@@ -1289,7 +1334,7 @@ class C19(Check):
         for n in range(POW_MAX + 1):
             report(r, "pow", [dom, a, n])
         for s in (SCALARS if dom == "Z" else SCALARS_Q):
-            for op in (*_SCALAR_OPS, "divmod"):
+            for op in (*_SCALAR_OPS, "divmod", "truediv"):
                 report(r, "scalar", [op, dom, a, s])
         report(r, "scalar", ["mulbase", dom, a, 0])
         if dom == "Z":
@@ -1304,6 +1349,7 @@ class C19(Check):
         for op in _ARITH:
             report(r, "arith", [op, dom, a, b], out=results)
         report(r, "divmod", [dom, a, b], out=results)
+        report(r, "truediv", [dom, a, b])
         if dom == "Z" and is_small(a) and is_small(b):
             # the same operation results once more after a mapper has rewritten them
             for what, obj, qp in results:
